@@ -7,6 +7,7 @@ from sexp import Sym, dumps, loads
 from gen import Gen, BOOL, NUM
 from raw import render, build_api, to_wire
 from propgen import PropGen, render_property, property_to_wire
+from clash import inject
 from dump import dump_expr, dump_pred, dump_property, dump_any, canon_str, classify_exception
 
 S = Sym
@@ -101,6 +102,24 @@ def run(ctx):
             corr_cases.append(({'kind': 'predicate', 'text': ptxt}, [o_pred], dumps([S('mkpred'), to_wire(r)])))
             if 'p' in holder:
                 asts.append(('parse_predicate', ptxt, holder['p']))
+    # ill-typed inputs (clash injector): the model must reject them too; anything the implementation accepts is judged
+    n_clash = 500 if ctx.quick else 5000
+    for _ in range(n_clash):
+        r, tag = inject(rng)
+        try:
+            ptxt = '{' + render(r, rng, 'min') + '}'
+        except ValueError:
+            rejects += 1
+            continue
+        holder = {}
+
+        def parse_c():
+            holder['p'] = prp.parse(ptxt)
+            return holder['p']
+        o_pred = outcome(parse_c, dump_pred)
+        corr_cases.append(({'kind': 'predicate', 'text': ptxt, 'clash': tag}, [o_pred], dumps([S('mkpred'), to_wire(r)])))
+        if 'p' in holder:
+            asts.append(('parse_predicate', ptxt, holder['p']))
     pg = PropGen(rng)
     for _ in range(n_prop):
         p = pg.prop()
